@@ -59,6 +59,7 @@ type Facts struct {
 	Monitor  []MonFunc   `json:"monitor"`
 	IDReads  []Site      `json:"id_reads"`
 	Protocol []string    `json:"layout_protocol"`
+	RefInits [][3]string `json:"ref_inits"`
 }
 
 // monitor state machine: each function is a list of guarded actions
@@ -164,6 +165,13 @@ func analyse(fset *token.FileSet, rel string, pkg *types.Package, files []*ast.F
 					}
 					obj := info.Defs[n]
 					globals[obj] = true
+					if len(vs.Values) == len(vs.Names) {
+						for i2, nm := range vs.Names {
+							if nm == n {
+								refInits(fset, info, rel, n.Name, "", vs.Values[i2], facts)
+							}
+						}
+					}
 					facts.Globals = append(facts.Globals, GlobalVar{Pkg: rel, Name: n.Name, Type: obj.Type().String(), File: fname})
 				}
 			}
@@ -402,6 +410,47 @@ func elemWriteRoot(e ast.Expr) *ast.Ident {
 	}
 }
 
+func isRefType(t types.Type) bool {
+	if t == nil {
+		return false
+	}
+	switch t.Underlying().(type) {
+	case *types.Slice, *types.Map, *types.Pointer, *types.Chan, *types.Signature, *types.Interface:
+		return true
+	}
+	return false
+}
+
+// refInits lists the reference-typed parts (slice, map, pointer, channel, function, interface) of a package-level
+// variable's initialiser that are set to something other than nil: copying the variable by value shares them.
+func refInits(fset *token.FileSet, info *types.Info, pkg, name, path string, e ast.Expr, facts *Facts) {
+	switch x := e.(type) {
+	case *ast.CompositeLit:
+		if tv, ok := info.Types[x]; ok && isRefType(tv.Type) {
+			facts.RefInits = append(facts.RefInits, [3]string{pkg, name, path + " (" + tv.Type.String() + ")"})
+			return
+		}
+		for _, el := range x.Elts {
+			if kv, ok := el.(*ast.KeyValueExpr); ok {
+				refInits(fset, info, pkg, name, path+"."+src(fset, kv.Key), kv.Value, facts)
+			} else {
+				refInits(fset, info, pkg, name, path+".[]", el, facts)
+			}
+		}
+	case *ast.Ident:
+		if x.Name == "nil" {
+			return
+		}
+		if tv, ok := info.Types[x]; ok && isRefType(tv.Type) {
+			facts.RefInits = append(facts.RefInits, [3]string{pkg, name, path + " (" + tv.Type.String() + ")"})
+		}
+	default:
+		if tv, ok := info.Types[e]; ok && isRefType(tv.Type) {
+			facts.RefInits = append(facts.RefInits, [3]string{pkg, name, path + " (" + tv.Type.String() + ")"})
+		}
+	}
+}
+
 func rootIdent(e ast.Expr) *ast.Ident {
 	for {
 		switch x := e.(type) {
@@ -581,6 +630,13 @@ func coq(f Facts) string {
 			acts[j] = coqStr(a)
 		}
 		fmt.Fprintf(&b, "  (%s, %s, [%s])%s\n", coqStr(m.Name), coqStr(m.Guard), strings.Join(acts, "; "), sep)
+	}
+	b.WriteString("].\n\n(* reference-typed parts of package-level initialisers that are not nil: (package, variable, path) *)\nDefinition ref_inits : list (string * string * string) := [")
+	for i, r := range f.RefInits {
+		if i > 0 {
+			b.WriteString("; ")
+		}
+		fmt.Fprintf(&b, "(%s, %s, %s)", coqStr(r[0]), coqStr(r[1]), coqStr(r[2]))
 	}
 	b.WriteString("].\n\n(* top-level statements of Layout up to the deferred Reset *)\nDefinition layout_protocol : list string := [")
 	for i, p := range f.Protocol {
